@@ -283,7 +283,13 @@ theorem wire_enum (cls : String) (w m : Nat) (h : m < 2 ^ w)
       check C08.E.membersOf (.e cls) (ofNat w m) (.enum cls m) = true := by
   have e : toNat (ofNat w m) = m := by rw [toNat_ofNat, Nat.mod_eq_of_lt h]
   refine ⟨ofNat_length w m, ⟨fun h => (by cases h), fun c hc => (by cases hc; rw [e]; exact hm)⟩, ?_⟩
-  simp only [check, e, hm, beq_self_eq_true, Bool.and_self, Bool.not_true, Bool.false_or]
+  have hb : blockOK C08.E.membersOf cls (m : Int) (m : Int) = true := by
+    unfold blockOK
+    rw [List.all_eq_true]
+    intro x _
+    obtain ⟨lo, hi, rep⟩ := x
+    simp only [hm, Bool.not_true, Bool.and_false, Bool.not_false, Bool.true_or]
+  simp only [check, e, hm, hb, beq_self_eq_true, Bool.and_self, Bool.not_true, Bool.false_or]
 
 /-- every multiple of 0.1 below `2^w` tenths (speed, course, draught) -/
 theorem wire_tenths (w i : Nat) (h : i < 2 ^ w) :
